@@ -11,7 +11,10 @@ Streams
               links of index.html / an entity page / a nested static page equal the model's
               `navLinks` (label, target); the brand link sits at the model's `projectUrl`;
               (micro stream) `current_path` of the real MetaMarkdown.convert + the relpath of
-              convert_link equal `docLinkPath`;
+              convert_link equal `docLinkPath`; `str(entity)` prints the <a href> form exactly when
+              the model's `strEmitsLink` says so and the `visible` attribute of directly constructed
+              objects (source files) equals the regenerated rule's value; the members of the
+              project lists have the classes the theorem about them assumes;
           (b) property oracle (harness/c09_links.py, defined from the statement only): every
               href/src/xlink:href/action and search-index url is external or relative, its file
               exists under the output directory, its fragment is an id of that file; then the
@@ -29,7 +32,7 @@ import time
 import traceback
 from concurrent.futures import ProcessPoolExecutor
 from pathlib import Path
-from urllib.parse import quote as _quote
+from urllib.parse import quote as _quote, unquote as _unquote
 
 from . import c09_gen, c09_links, common, e2e
 from .common import Driver, Report, lean_prove
@@ -289,7 +292,13 @@ def classify(fail, ctx):
             if cand.startswith(ctx["out"] + "/"):
                 return "C09-doc-link-in-entity-without-url"
     if not opts["incl_src"] and missing and re.fullmatch(r"(\.\./)*sourcefile/[^/]+\.html", path):
-        return "C09-file-link-with-sources-hidden"
+        # only the link the markdown processor makes for `[[<file>(file)]]` (Project.find searches allfiles):
+        # an <a href=".."> as the markdown serialiser writes it, whose file is named by such a link in the
+        # project's documentation.  A link printed by FortranBase.__str__ (<a href='..'>: "Location" cells,
+        # breadcrumbs, ...) is NOT this defect: the `visible` flag of the file must keep it away.
+        fname = re.sub(r"~\d+$", "", _unquote(os.path.basename(path))[:-5]).lower()
+        if fail.get("tag") == "a" and fail.get("attr") == "href" and fail.get("q") == '"' and fname in ctx["file_link_targets"]:
+            return "C09-file-link-with-sources-hidden"
     if feat["module_namelist"] and page.startswith("module/") and frag.startswith("namelist-") and "fragment" in why \
             and os.path.normpath(os.path.join(os.path.dirname(page), path)) == page:
         return "C09-module-namelist-anchor"
@@ -307,6 +316,22 @@ def classify(fail, ctx):
         if (stem and stem.lower() in hid) or (fname and fname.lower() in hid):
             return "C09-link-to-entity-hidden-by-display"
     return None
+
+
+FILE_LINK_RE = re.compile(r"\[\[\s*([^\]\[():|]+?)\s*(?:\(file\))?\s*\]\]", re.I)
+
+
+def file_link_targets(R):
+    """Lower-cased base names of the source / extra files that some `[[name(file)]]` (or bare `[[name]]`)
+    link in the project's texts (sources, extra files, static pages, front page) names."""
+    names = {n.split("/")[-1].lower() for n in list(R["files"]) + list(R["extra"])}
+    texts = list(R["files"].values()) + list(R["extra"].values()) + list((R["pages"] or {}).values()) + [R["text"]]
+    found = set()
+    for t in texts:
+        for m in FILE_LINK_RE.finditer(t):
+            if m.group(1).lower() in names:
+                found.add(m.group(1).lower())
+    return found
 
 
 def walk_entities(project, limit=600):
@@ -349,7 +374,16 @@ def entity_record(o):
         u = o.get_url()
     except Exception as e:  # noqa
         return {"chain": chain, "dir": f"EXC {type(e).__name__}", "url": f"EXC {type(e).__name__}"}
-    return {"chain": chain, "dir": d if d is not None else "none", "url": u if u is not None else "none"}
+    # FortranBase.__str__: does it print the link form?
+    vis = getattr(o, "visible", None)
+    try:
+        text = str(o)
+        sl = "1" if re.search(r"<a\s[^>]*href", text) else "0"
+    except Exception as e:  # noqa
+        sl = f"EXC {type(e).__name__}"
+    return {"chain": chain, "dir": d if d is not None else "none", "url": u if u is not None else "none",
+            "vis": "none" if vis is None else ("1" if vis else "0"), "str_link": sl,
+            "ext": hasattr(o, "external_url")}
 
 
 class _Nav(c09_links.HTMLParser):
@@ -433,6 +467,7 @@ def run_site(args):
                 if rec is not None:
                     ents.append(rec)
         res["entities"] = ents
+        res["list_classes"] = {l: sorted({type(x).__name__ for x in getattr(proj, l)}) for l in COUNT_LISTS} if proj is not None else {}
         res["first"] = {}
         if proj is not None:
             for l in ("files", "blockdata", "programs"):
@@ -457,7 +492,8 @@ def run_site(args):
         # ---------- property oracle
         fails = site.failures()
         ctx = {"out": str(out), "cwd": cwd, "opts": P["opts"], "shape": shape or c09_gen.shape_counts(P),
-               "feat": project_features(P), "hidden": hidden_names(P), "functions": function_names(P)}
+               "feat": project_features(P), "hidden": hidden_names(P), "functions": function_names(P),
+               "file_link_targets": file_link_targets(R)}
         texts = {}
         for f in fails:
             pg = f["page"]
@@ -553,6 +589,38 @@ def compare_site(r, drv_answers, rep, stats):
             stats["bad"] += 1
             rep.tie_broken(f"correspondence site/geturl: model {ans} vs implementation {impl} for {rec['chain'][0]} (case {k})",
                            {"stream": "site", "case": k, "chain": rec["chain"], "model": ans, "impl": impl})
+    # --- FortranBase.__str__: link form printed <-> model (URL present and `visible`); for classes with a
+    #     static rule the real object's `visible` attribute must equal the rule's value
+    for rec, ans in zip(r["entities"], drv_answers.get("strlink", [])):
+        if rec.get("ext"):
+            continue
+        if rec["str_link"].startswith("EXC"):
+            stats["str_exc"] += 1
+            continue
+        stats["strlink"] += 1
+        if ans[0] != rec["str_link"] or (ans[1] != "dyn" and ans[1] != (rec["vis"] if rec["vis"] != "none" else ans[1])):
+            stats["bad"] += 1
+            rep.tie_broken(f"correspondence site/strlink: model (link, visible) {ans} vs implementation "
+                           f"{[rec['str_link'], rec['vis']]} for {rec['chain'][0]} (case {k})",
+                           {"stream": "site", "case": k, "chain": rec["chain"], "model": ans,
+                            "impl": [rec["str_link"], rec["vis"]], "opts": r["opts"]})
+    # --- members of the project lists versus the class the table names (annotation in Project.__init__; FORD's
+    #     annotations are loose for lists such as `procedures`, so only what the theorem uses is compared):
+    #     a list whose table class can be a parent, or has a static `visible` rule, holds exactly that class;
+    #     no other list holds instances of a parent class
+    mro, dir_parent = drv_answers["mro"], set(drv_answers["dir_parent"])
+
+    def is_parent(cn):
+        return any(c in dir_parent for c in mro.get(cn, [cn]))
+
+    for l, want in drv_answers.get("list_class", {}).items():
+        for cn in r.get("list_classes", {}).get(l, []):
+            stats["list_members"] += 1
+            strict = is_parent(want) or want in drv_answers["vis_classes"]
+            if (strict and cn != want) or (not strict and is_parent(cn)):
+                stats["bad"] += 1
+                rep.tie_broken(f"correspondence site/list class: project.{l} holds a {cn}, the table says {want} (case {k})",
+                               {"stream": "site", "case": k, "list": l, "impl": cn, "model": want})
     # --- navigation
     for tpl_page, links in r["nav"].items():
         tpls = ["base.html", "index.html"] if tpl_page == "index.html" else ["base.html"]
@@ -635,10 +703,22 @@ def run(tier: str, seed: int, replay: str | None = None) -> int:
         if e != known_entry:
             rep.tie_broken(f"navigation entry {e}: its template condition does not imply the condition of its target page "
                            f"(entryOk = false on the regenerated table)")
+    # ---- every project list whose members are printed as somebody's parent: visible => page written
+    strcheck = [e.split("|") for e in drv.call("c09.strcheck")[1:]]
+    failing_lists = [e[0] for e in strcheck if len(e) == 4 and e[2] == "1" and e[3] == "0"]
+    for l in failing_lists:
+        rep.tie_broken(f"project.{l}: a member's __str__ may print the link to its page (its `visible` rule holds) for project "
+                       f"shapes for which entity_list_page_map makes no page for it (listOk = false on the regenerated tables)")
     labels = {"base.html": set(), "index.html": set()}
+    table_mro, table_list_class, table_dir_parent, table_vis_classes = {}, {}, [], []
     try:
-        for tpl, label, tgt, c in tr.extract()["nav"]:
+        ext = tr.extract()
+        for tpl, label, tgt, c in ext["nav"]:
             labels[tpl].add(re.sub(r"\s+", " ", _html.unescape(label)).strip())
+        table_mro = {n: ch for n, ch in ext["mro"]}
+        table_list_class = dict(ext["list_class"])
+        table_dir_parent = list(ext["dir_parent"])
+        table_vis_classes = [c for c, _cond, _src in ext["vis_init"]]
     except Exception as e:  # the translator failure is already recorded by lean_prove
         pass
 
@@ -654,7 +734,7 @@ def run(tier: str, seed: int, replay: str | None = None) -> int:
     hist = {"shape_kind": {}, "files": {}, "modules": {}, "programs": {}, "blockdata": {}, "procedures": {}, "types": {},
             "absinterfaces": {}, "namelists": {}, "submodules": {}, "options": {}, "links_by_page_kind": {}, "doc_link_targets": {},
             "aborted_runs": {}}
-    stats = {"geturl": 0, "nav_pages": 0, "bad": 0}
+    stats = {"geturl": 0, "nav_pages": 0, "bad": 0, "strlink": 0, "str_exc": 0, "list_members": 0}
     n_links = n_internal = 0
     distinct = set()
     samples = []
@@ -690,10 +770,13 @@ def run(tier: str, seed: int, replay: str | None = None) -> int:
             index.append((r["k"], "geturl", len(reqs), len(r["entities"])))
             for rec in r["entities"]:
                 reqs.append(["c09.geturl"] + [x for node in rec["chain"] for x in node])
+            index.append((r["k"], "strlink", len(reqs), len(r["entities"])))
+            for rec in r["entities"]:
+                reqs.append(["c09.strlink", rec["vis"], str(len(rec["chain"]))] + [x for node in rec["chain"] for x in node] + fs)
         answers = drv.batch(reqs)
         by_site: dict[int, dict] = {}
         for k, name, start, n in index:
-            by_site.setdefault(k, {})[name] = answers[start] if name != "geturl" else answers[start:start + n]
+            by_site.setdefault(k, {})[name] = answers[start] if name not in ("geturl", "strlink") else answers[start:start + n]
         # ---- evaluate
         for r in results:
             k = r["k"]
@@ -738,6 +821,10 @@ def run(tier: str, seed: int, replay: str | None = None) -> int:
                                 "list_pages": r["list_pages"], "failing_links": r["n_fails"]})
             if k in by_site:
                 by_site[k]["labels"] = labels
+                by_site[k]["mro"] = table_mro
+                by_site[k]["list_class"] = table_list_class
+                by_site[k]["dir_parent"] = table_dir_parent
+                by_site[k]["vis_classes"] = table_vis_classes
                 compare_site(r, by_site[k], rep, stats)
             # oracle
             if r["n_fails"]:
@@ -772,16 +859,18 @@ def run(tier: str, seed: int, replay: str | None = None) -> int:
     drv.close()
     n_ok = sum(1 for r in results if r.get("rc") == 0)
     rep.coverage.update(
-        evaluations=ev_micro + len(results) + stats["geturl"] + stats["nav_pages"],
+        evaluations=ev_micro + len(results) + stats["geturl"] + stats["strlink"] + stats["nav_pages"],
         distinct_nontrivial=len(distinct),
         rule="a site case = generated project (shape x options x static pages x doc links) run through ford end-to-end; "
              "distinct by digest of (entity counts as FORD sees them, option combination, page tree present); all of them reach the mechanism",
         samples=samples,
-        traces_validated_against_impl=ev_micro + stats["geturl"] + stats["nav_pages"] + n_ok,
+        traces_validated_against_impl=ev_micro + stats["geturl"] + stats["strlink"] + stats["nav_pages"] + n_ok,
         correspondence_disagreements=stats["bad"] + bad_micro,
         sites_generated=len(results), sites_built=n_ok,
         links_checked=n_links, internal_links_checked=n_internal, relocation_checks=reloc_checked,
         entities_compared_get_url=stats["geturl"], pages_compared_navigation=stats["nav_pages"],
+        entities_compared_str_link=stats["strlink"], entities_str_raises=stats["str_exc"],
+        list_member_classes_compared=stats["list_members"], project_lists_failing_str_check=failing_lists,
         sites_with_failing_links=oracle_fail_sites, failing_links_by_class=dict(sorted(class_counts.items())),
         variant=variant, navigation_entries_failing_check=failing_entries,
         input_distribution=hist,
